@@ -176,6 +176,11 @@ var featureFixtures = []item{
 	{ID: "ft/casts", Src: "<?php\necho (int)\"12abc\", (float)\"1.5\", (string)12, (bool)\"0\" ? \"t\" : \"f\", json_encode((array)\"s\"), \"\\n\";\n"},
 	{ID: "ft/try-nested", Src: "<?php\nfunction t($n) { try { try { if ($n) { throw new InvalidArgumentException(\"in\"); } return \"ok\"; } finally { echo \"f1\"; } } catch (RuntimeException | InvalidArgumentException $e) { return \"c:\" . $e->getMessage(); } finally { echo \"f2\"; } }\necho t(0), t(1), \"\\n\";\n"},
 	{ID: "ft/inline-html", Src: "<html>\n<?php $x = 2; ?>\n<p><?= $x ?></p>\n<?php if ($x > 1) { ?>big<?php } ?>\n</html>\n"},
+	{ID: "ft/float-literals-precision", Src: "<?php\necho 3.141592653589793, \"|\", 123456789.125, \"|\", 0.1234567890123, \"|\", 1e-50, \"|\", 2.5e-7, \"|\", 1.7976931348623157e308, \"|\", 6.02e23, \"|\", 0.30000000000000004, \"\\n\";\n$x = 9007199254740993; echo $x, \"|\", -9223372036854775807, \"|\", 4294967296, \"\\n\";\n"},
+	{ID: "ft/switch-empty-default-fallthrough", Src: "<?php\nfunction s($v) { $o = \"\"; switch ($v) { case 1: $o .= \"one \"; break; default: case 2: $o .= \"two-or-other \"; case 3: $o .= \"three\"; break; case 4: } return $v . \" => \" . $o; }\necho s(1), \"|\", s(2), \"|\", s(3), \"|\", s(4), \"|\", s(5), \"\\n\";\nfunction e($v) { switch ($v) { default: } return \"done\"; } echo e(1), \"\\n\";\n"},
+	{ID: "ft/empty-collections", Src: "<?php\nfunction noargs() { return func_num_args(); } $a = []; $f = function() { return 1; }; $o = new stdClass();\necho json_encode($a), count($a), noargs(), $f(), get_class($o), json_encode([[], [[]]]), \"\\n\";\nforeach ([] as $v) { echo \"never\"; } for (;;) { break; } if (true) { } else { } try { } finally { } echo \"ok\\n\";\n"},
+	{ID: "ft/bool-null-literals", Src: "<?php\n$t = true; $f = false; $n = null; echo json_encode([$t, $f, $n, TRUE, False, NULL]), gettype($n), ($t && !$f) ? \"y\" : \"n\", \"\\n\";\n"},
+	{ID: "ft/nested-calls-args", Src: "<?php\nfunction a($x, $y = 10) { return $x + $y; } function b($f, ...$r) { return $f(...$r); }\necho a(a(1), a(2, 3)), b(\"a\", 4), b(\"a\", 4, 5), b(fn($p, $q) => $p * $q, 6, 7), \"\\n\";\n"},
 	{ID: "ft/recursion-early-return", Src: "<?php\nfunction fib($n) { if ($n < 2) return $n; return fib($n - 1) + fib($n - 2); }\necho fib(10), \"\\n\";\nfunction find($a, $t) { foreach ($a as $i => $v) { if ($v == $t) { return $i; } } return -1; } echo find([5, 6, 7], 6), find([5], 9), \"\\n\";\n"},
 	{ID: "ft/switch-strings-fallthrough", Src: "<?php\nfunction s($v) { $o = \"\"; switch ($v) { case \"a\": case \"b\": $o .= \"ab\"; case \"c\": $o .= \"c\"; break; default: $o .= \"d\"; } return $o; }\necho s(\"a\"), \"|\", s(\"c\"), \"|\", s(\"z\"), \"\\n\";\n"},
 	{ID: "ft/break-continue-levels", Src: "<?php\nfor ($i = 0; $i < 3; $i++) { for ($j = 0; $j < 3; $j++) { if ($j == 1) continue 2; if ($i == 2) break 2; echo $i, $j, \",\"; } } echo \"\\n\";\n"},
